@@ -43,25 +43,16 @@ type Dataset struct {
 	partitions    []*partition
 	partitionsMap map[uuid.UUID]*partition
 	partitionsMu  *sync.RWMutex
-
-	searchClients        map[uint64]pb.SearchClient
-	searchClientsMu      *sync.RWMutex
-	dataManagerClients   map[uint64]pb.DataManagerClient
-	dataManagerClientsMu *sync.RWMutex
 }
 
 func newDataset(id uuid.UUID, meta pb.Dataset, raftWalDB *badger.DB, raftTransport *raft.RaftTransport, clusterConn *cluster.Conn, datasetManager *DatasetManager) (*Dataset, error) {
 	d := &Dataset{
-		id:                   id,
-		meta:                 &meta,
-		clusterConn:          clusterConn,
-		partitions:           make([]*partition, meta.GetPartitionCount()),
-		partitionsMap:        make(map[uuid.UUID]*partition),
-		partitionsMu:         &sync.RWMutex{},
-		searchClients:        make(map[uint64]pb.SearchClient),
-		searchClientsMu:      &sync.RWMutex{},
-		dataManagerClients:   make(map[uint64]pb.DataManagerClient),
-		dataManagerClientsMu: &sync.RWMutex{},
+		id:            id,
+		meta:          &meta,
+		clusterConn:   clusterConn,
+		partitions:    make([]*partition, meta.GetPartitionCount()),
+		partitionsMap: make(map[uuid.UUID]*partition),
+		partitionsMu:  &sync.RWMutex{},
 	}
 
 	for i := 0; i < int(meta.GetPartitionCount()); i++ {
@@ -660,58 +651,21 @@ func (this *Dataset) errorsResponseToPartitionBatchResult(errStrings map[string]
 	return result
 }
 
+// The clients are built on the connection the cluster Conn holds for the node right
+// now. Conn closes and replaces that connection when the node leaves and joins again,
+// so a client must not be kept across calls.
 func (this *Dataset) getNodeSearchClient(ctx context.Context, nodeId uint64) (pb.SearchClient, error) {
-	client := this.getCachedNodeSearchClient(nodeId)
-	if client != nil {
-		return client, nil
-	}
-
 	conn, err := this.clusterConn.Dial(nodeId)
 	if err != nil {
 		return nil, err
 	}
-
-	this.searchClientsMu.Lock()
-	defer this.searchClientsMu.Unlock()
-
-	this.searchClients[nodeId] = pb.NewSearchClient(conn)
-	return this.searchClients[nodeId], nil
-}
-
-func (this *Dataset) getCachedNodeSearchClient(nodeId uint64) pb.SearchClient {
-	this.searchClientsMu.RLock()
-	defer this.searchClientsMu.RUnlock()
-
-	if client, exists := this.searchClients[nodeId]; exists {
-		return client
-	}
-	return nil
+	return pb.NewSearchClient(conn), nil
 }
 
 func (this *Dataset) getDataManagerClient(ctx context.Context, nodeId uint64) (pb.DataManagerClient, error) {
-	client := this.getCachedDataManagerClient(nodeId)
-	if client != nil {
-		return client, nil
-	}
-
 	conn, err := this.clusterConn.Dial(nodeId)
 	if err != nil {
 		return nil, err
 	}
-
-	this.dataManagerClientsMu.Lock()
-	defer this.dataManagerClientsMu.Unlock()
-
-	this.dataManagerClients[nodeId] = pb.NewDataManagerClient(conn)
-	return this.dataManagerClients[nodeId], nil
-}
-
-func (this *Dataset) getCachedDataManagerClient(nodeId uint64) pb.DataManagerClient {
-	this.dataManagerClientsMu.RLock()
-	defer this.dataManagerClientsMu.RUnlock()
-
-	if client, exists := this.dataManagerClients[nodeId]; exists {
-		return client
-	}
-	return nil
+	return pb.NewDataManagerClient(conn), nil
 }
